@@ -306,8 +306,10 @@ class PathView:
             N = self.N; out = []
             for ef in self.e['effects']:
                 op, ns, key, val, res, site, stack, fpos = ef
+                nv = (N(val) if (val is not None and op != 'read') else val)
+                if op == 'save' and self.root == 'execute' and isinstance(ns, str): nv = rebuilt_as_update(ns, nv)
                 out.append({'op': op, 'ns': ns, 'key': N(key) if key is not None else None,
-                            'val': (N(val) if (val is not None and op != 'read') else val), 'site': site,
+                            'val': nv, 'site': site,
                             'stack': stack, 'fpos': fpos, 'res': res})
             self._eff = out
         return self._eff
@@ -387,6 +389,18 @@ def _split_erf(pol):
     if len(dv) != 1 or len(other) != 1: return None
     rest = Poly({m2: v for m2, v in pol.m.items() if m2 != (hit,)})
     return {'rest': rest, 'N': dv[0][2][0], 'Q': dv[0][2][1], 'F': other[0]}
+
+def rebuilt_as_update(ns, val):
+    """`Rec { changed: v, ..stored }` (struct update syntax, or a field-by-field rebuild) is `stored with { changed: v }`: a constructor term
+    whose other fields are the same-named fields of ONE record loaded from the namespace it is saved to, with fewer than half of the fields
+    replaced. Applied to saves of `execute` only (in `migrate` a record built from an old-format record is a conversion, not an update)."""
+    if val is None or val[0] != 'adt' or len(val[3]) < 3: return val
+    base = None; changed = []
+    for n, v in val[3]:
+        if v[0] == 'f' and v[2] == n and v[1][0] == 'stored' and v[1][1] == ns and (base is None or base == v[1]): base = v[1]
+        else: changed.append((('f', n), v))
+    if base is None or len(changed) * 2 > len(val[3]): return val
+    return ('upd', base, tuple(sorted(changed, key=repr))) if changed else base
 
 def sign_of_fact(f):
     """(X, 'pos'|'zero') when the fact establishes X > 0 or X == 0 for an unsigned amount X, in any of the equivalent
